@@ -35,6 +35,8 @@ func runC01(c *Ctx) {
 	c.Rule("C01.R3", "fast path gated on all dirty bits; only the id is patched in retained bytes", 10)
 	c.Rule("C01.R4", "narrowing length conversions are bound-checked", 8)
 	c.Rule("C01.R5", "TCP relay forwards a clone, drains after write, remote close flushes", 6)
+	c.Rule("C01.R6", "HTTP/1: nothing parses the URI of the outgoing request (fasthttp would rebuild the request line normalised)", 2)
+	defer c01HTTPRequestLine(c)
 	c.NotDecided = append(c.NotDecided, "HTTP/1.1 and HTTP/2 method/URI/header/body fidelity (runtime string values)", "tars byte identity (always re-encoded through TarsGo)", "header.EncodeHeader/DecodeHeader inverse property (dependency)")
 	c.Assumptions = append(c.Assumptions, "IoBuffer.Bytes() is a view of the buffer's array; Write/Clone/copy copy (mosn.io/pkg/buffer/iobuffer.go)", "passing wire bytes to TarsGo/thrift/hessian readers does not retain them in the frame")
 
@@ -531,7 +533,7 @@ func c01Alias(c *Ctx) {
 func c01FastPath(c *Ctx) {
 	type enc struct {
 		pkg, fn, retained string // field returned by the fast path
-		typ              []string
+		typ               []string
 	}
 	encs := []enc{
 		{"pkg/protocol/xprotocol/bolt", "encodeRequest", "Data", []string{"Request"}},
